@@ -6,6 +6,15 @@ from . import c01, c03
 from . import common as cm
 
 
+def trough_rows():
+    """distribute into several virtual rows of one trough column (same Fluent position)"""
+    return [
+        c01.R("T", 1, "T", ["A01", "B01"], 7.5),
+        c01.R("T", 0, "T", ["A02", "B02", "C02"], 7.5),
+        c01.R("T", 1, "T", ["C01", "A01"], 30, multi_disp=2),
+    ]
+
+
 def misc():
     return [
         ["call", "w", "comment", ["hello"], {}],
@@ -52,11 +61,11 @@ class Harness(cm.BaseA):
         if W["failed"] >= 2:
             return []
         extra = c03.failing_W1()[:6] if config["set"] == "W1" else c03.failing_W3()[:6]
-        return c01.SETS[config["set"]][1]() + extra + misc()[:2]
+        return c01.SETS[config["set"]][1]() + extra + misc()[:2] + trough_rows()[:1]
 
     def full_events(self, W, config):
         f = c03.failing_W1() if config["set"] == "W1" else c03.failing_W3()
-        return c01.SETS[config["set"]][2]("quick") + f + misc()
+        return c01.SETS[config["set"]][2]("quick") + f + misc() + trough_rows()
 
     def canon(self, W, config):
         parts = []
@@ -153,6 +162,7 @@ class Harness(cm.BaseA):
             return f"R destination not decodable: {a!r} vs {b!r} ({e})"
         if not g.is_trough:
             return f"R destination ranges differ for a non-trough rack: {a!r} vs {b!r}"
-        if ca != cb or None in ca:
+        # virtual rows of one trough column share a Fluent position: compare the addressed wells as a set
+        if set(ca) != set(cb) or None in ca:
             return f"R destinations address different wells: {a!r} -> {ca} vs {b!r} -> {cb}"
         return None
